@@ -102,14 +102,15 @@ func vC16_sequential() {
 // Substituted (checks/c16.py): PID.Tell (records the correlation id of the outgoing AsyncRequest, may fail),
 // dispatcher.schedule / worker.reschedule (no-ops: the harness runs the turns), PID.submitSupervision (counter).
 
-type vC16Msg struct{ op, id, mode, max int }
+type vC16Msg struct {
+	op, id, id2, mode, max int
+	disable, enable       bool
+}
 
 const (
 	vC16User    = iota // ordinary user message number id
-	vC16Req            // issue request id (mode: per-call override, -1 = none)
 	vC16Req2           // issue requests 0 and 1 in the same Receive (overrides mode, max)
-	vC16Disable        // DisableReentrancy
-	vC16Enable         // EnableReentrancy(mode, max)
+	vC16Script         // Request 0 (override id); [DisableReentrancy]; [EnableReentrancy(mode, max)]; Request 1 (override id2)
 )
 
 var (
@@ -192,27 +193,26 @@ func vC16_receive(rctx *ReceiveContext) {
 			vC16_order[vC16_nHandled] = m.id
 		}
 		vC16_nHandled++
-	case vC16Req:
-		vC16_request(rctx, m.id, m.mode)
 	case vC16Req2:
 		vC16_request(rctx, 0, m.mode)
 		vC16_request(rctx, 1, m.max)
-	case vC16Disable:
-		rctx.DisableReentrancy()
-		vC16_gMode = reentrancy.Off
-	case vC16Enable:
-		err := rctx.EnableReentrancy(reentrancy.New(reentrancy.WithMode(reentrancy.Mode(m.mode)), reentrancy.WithMaxInFlight(m.max)))
-		vAssert(err == nil, "a valid policy is accepted")
-		vC16_gMode, vC16_gMax = reentrancy.Mode(m.mode), m.max
+	case vC16Script:
+		vC16_request(rctx, 0, m.id)
+		if m.disable {
+			rctx.DisableReentrancy()
+			vC16_gMode = reentrancy.Off
+		}
+		if m.enable {
+			err := rctx.EnableReentrancy(reentrancy.New(reentrancy.WithMode(reentrancy.Mode(m.mode)), reentrancy.WithMaxInFlight(m.max)))
+			vAssert(err == nil, "a valid policy is accepted")
+			vC16_gMode, vC16_gMax = reentrancy.Mode(m.mode), m.max
+		}
+		vC16_request(rctx, 1, m.id2)
 	}
 }
 
-func vC16_newActor() (*PID, *worker) {
-	mode := reentrancy.Mode(vNondetInt("policyMode"))
-	max := vNondetInt("policyMax")
-	vAssume(mode == reentrancy.AllowAll || mode == reentrancy.StashNonReentrant)
-	vAssume(max >= 0 && max <= 2)
-	vC16_tellFail = [2]bool{vNondetBool("sendFails0"), vNondetBool("sendFails1")}
+func vC16_newActor(mode reentrancy.Mode, max int) (*PID, *worker) {
+	vC16_tellFail = [2]bool{}
 	pid := &PID{mailbox: NewUnboundedMailbox(), systemMailbox: NewUnboundedMailbox(), dispatcher: &dispatcher{throughput: 3}, logger: log.DiscardLogger}
 	bs := newBehaviorStack()
 	bs.Push(vC16_receive)
@@ -295,16 +295,26 @@ var vC16_orders = [12][4]int{
 	{2, 0, 1, 3}, {3, 0, 1, 2}, {2, 0, 3, 1}, {3, 0, 2, 1}, {2, 3, 0, 1}, {3, 2, 0, 1},
 }
 
-// one Receive issues two requests with independent per-call modes (default policy, AllowAll or StashNonReentrant); then two
-// user messages and the two outcomes arrive in the order selected by the case, the mailbox being drained after every arrival
+// One Receive issues two requests: request 0 with the actor's default mode, request 1 with a per-call override (case "modes":
+// bit 0 / bit 1 = request 0 / 1 is StashNonReentrant, else AllowAll). Then two user messages and the two outcomes arrive in
+// the order selected by case "order", the mailbox being drained after every arrival. Request 1 ends by RequestCall.Cancel
+// in the odd-numbered orders. The shape of the history is concrete (cases); reply payloads and the limit are symbolic.
 func vC16_mixedModes() {
-	order := vC16_orders[vCase("order")]
-	ov0, ov1 := vNondetInt("override0"), vNondetInt("override1")
-	vAssume(ov0 >= -1 && ov0 <= 2 && ov1 >= -1 && ov1 <= 2)
+	modes, orderIdx := vCase("modes"), vCase("order")
+	order := vC16_orders[orderIdx]
+	mode0, mode1 := reentrancy.AllowAll, reentrancy.AllowAll
+	if modes&1 != 0 {
+		mode0 = reentrancy.StashNonReentrant
+	}
+	if modes&2 != 0 {
+		mode1 = reentrancy.StashNonReentrant
+	}
+	max := vNondetInt("policyMax")
+	vAssume(max == 0 || max == 2 || max == 3) // both requests fit
 	err0, err1 := vNondetBool("errorReply0"), vNondetBool("errorReply1")
-	cancel1 := vNondetBool("cancel1")
-	pid, w := vC16_newActor()
-	vC16_send(pid, w, &vC16Msg{op: vC16Req2, mode: ov0, max: ov1})
+	pid, w := vC16_newActor(mode0, max)
+	vC16_send(pid, w, &vC16Msg{op: vC16Req2, mode: -1, max: int(mode1)})
+	vAssert(vC16_calls[0] != nil && vC16_calls[1] != nil, "both requests are admitted")
 	for k := 0; k < 4; k++ {
 		switch e := order[k]; e {
 		case 0, 1:
@@ -312,61 +322,49 @@ func vC16_mixedModes() {
 		case 2:
 			vC16_complete(pid, w, 0, err0, false)
 		case 3:
-			vC16_complete(pid, w, 1, err1, cancel1)
+			vC16_complete(pid, w, 1, err1, orderIdx%2 == 1)
 		}
 	}
 	vC16_finish(pid, 2)
-	if vC16_reqMode[0] == reentrancy.AllowAll && vC16_reqMode[1] == reentrancy.StashNonReentrant {
-		vCover("allowAll-then-blocking")
-	}
-	if vC16_reqMode[0] == reentrancy.StashNonReentrant && vC16_reqMode[1] == reentrancy.AllowAll {
-		vCover("blocking-then-allowAll")
-	}
-	if vC16_reqMode[0] == reentrancy.StashNonReentrant && vC16_reqMode[1] == reentrancy.StashNonReentrant {
-		vCover("both-blocking")
-	}
 	vCover("end")
 }
 
-// request 0 is issued; then the policy is switched off and/or retuned at runtime (case "toggle": 0 nothing, 1 Disable,
-// 2 Disable then Enable, 3 Enable); then request 1 is attempted, a user message arrives, and the outcomes arrive
-// (case "first": which one first)
+// One Receive calls Request, then optionally DisableReentrancy, then optionally EnableReentrancy(newMode, newMax), then
+// Request again (policy, per-call overrides, the toggles and a failing send are all solver-chosen); afterwards the two
+// outcomes arrive in a solver-chosen order, each on its own turn.
 func vC16_retune() {
-	toggle, first := vCase("toggle"), vCase("first")
-	ov0, ov1 := vNondetInt("override0"), vNondetInt("override1")
-	vAssume(ov0 >= -1 && ov0 <= 2 && ov1 >= -1 && ov1 <= 2)
-	mode2, max2 := vNondetInt("newMode"), vNondetInt("newMax")
-	vAssume(mode2 >= 0 && mode2 <= 2 && max2 >= 0 && max2 <= 2)
+	mode := reentrancy.Mode(vNondetInt("policyMode"))
+	max := vNondetInt("policyMax")
+	vAssume(mode == reentrancy.AllowAll || mode == reentrancy.StashNonReentrant)
+	vAssume(max >= 0 && max <= 2)
+	m := &vC16Msg{op: vC16Script, id: vNondetInt("override0"), id2: vNondetInt("override1"), mode: vNondetInt("newMode"), max: vNondetInt("newMax"),
+		disable: vNondetBool("disable"), enable: vNondetBool("enable")}
+	vAssume(m.id >= -1 && m.id <= 2 && m.id2 >= -1 && m.id2 <= 2 && m.mode >= 0 && m.mode <= 2 && m.max >= 0 && m.max <= 2)
 	err0, err1 := vNondetBool("errorReply0"), vNondetBool("errorReply1")
-	cancel0 := vNondetBool("cancel0")
-	pid, w := vC16_newActor()
-	vC16_send(pid, w, &vC16Msg{op: vC16Req, id: 0, mode: ov0})
-	if toggle == 1 || toggle == 2 {
-		vC16_send(pid, w, &vC16Msg{op: vC16Disable})
-	}
-	if toggle == 2 || toggle == 3 {
-		vC16_send(pid, w, &vC16Msg{op: vC16Enable, mode: mode2, max: max2})
-	}
-	vC16_send(pid, w, &vC16Msg{op: vC16Req, id: 1, mode: ov1})
-	vC16_send(pid, w, &vC16Msg{op: vC16User, id: 0})
-	if first == 0 {
-		vC16_complete(pid, w, 0, err0, cancel0)
-		vC16_complete(pid, w, 1, err1, false)
-	} else {
-		vC16_complete(pid, w, 1, err1, false)
-		vC16_complete(pid, w, 0, err0, cancel0)
-	}
-	// a request that was issued late (its Receive was held behind a blocking request 0) gets its reply now
-	if vC16_calls[1] != nil && vC16_done[1] == 0 {
-		vCover("second-request-was-held")
+	first := vNondetBool("outcome1First")
+	fail0, fail1 := vNondetBool("sendFails0"), vNondetBool("sendFails1")
+	pid, w := vC16_newActor(mode, max)
+	vC16_tellFail = [2]bool{fail0, fail1}
+	vC16_send(pid, w, m)
+	if first {
 		vC16_complete(pid, w, 1, err1, false)
 	}
-	vC16_finish(pid, 1)
+	vC16_complete(pid, w, 0, err0, false)
+	if !first {
+		vC16_complete(pid, w, 1, err1, false)
+	}
+	vC16_finish(pid, 0)
 	if vC16_calls[0] != nil && vC16_calls[1] != nil {
 		vCover("both-admitted")
+		if m.disable && m.enable {
+			vCover("both-admitted-across-disable-enable")
+		}
+		if m.disable && !m.enable {
+			vCover("override-admitted-while-off")
+		}
 	}
-	if vC16_calls[0] != nil && vC16_calls[1] == nil {
-		vCover("second-rejected")
+	if vC16_calls[0] != nil && vC16_calls[1] == nil && !fail1 && m.disable && m.enable {
+		vCover("second-rejected-by-limit-after-reenable")
 	}
 	vCover("end")
 }
